@@ -3,7 +3,7 @@
 import json, os, shutil, sys
 P, L, caught = sys.argv[1:4]
 note = sys.argv[4] if len(sys.argv) > 4 else ""
-src = f"/tmp/wt-out/{P}"
+src = os.environ.get("SEED_SRC", "/tmp/wt-out") + f"/{P}"
 dst = f"/verif/seeded/{P}-{L}"
 os.makedirs(dst, exist_ok=True)
 shutil.copy(f"{src}/{L}.patch.diff", f"{dst}/patch.diff")
